@@ -64,7 +64,8 @@ Section roundtrip2.
   Proof.
     destruct Hinv as [I1 I2 I3 I4 I5 I6 I7 I8 I9].
     unfold validate2. cbn [export2 h_vals h_params h_next_l2 h_info h_pairs].
-    rewrite !andb_true_iff. split; [split; [split; [split; [split|]|]|]|].
+    rewrite !andb_true_iff. split; [split; [split; [split; [split; [split|]|]|]|]|].
+    - apply bool_decide_eq_true. apply NoDup_sorted_ops.
     - apply bool_decide_eq_true. apply NoDup_fmap_2_strong; [|apply NoDup_sorted_ops_list].
       intros [op1 v1] [op2 v2] H1 H2 Hk. cbn in Hk.
       apply elem_of_sorted_ops in H1, H2.
